@@ -194,8 +194,10 @@ def impl_init():
         ps = TCPPacketSignature.from_packet(parsed, c["syn_mss"])
         out = {"psig": U.psig_dict(ps), "frag": bool(parsed.ip.is_fragment), "type": int(parsed.tcp.type)}
         try:
-            with U.options_as(len(c["lines"]) + c["md"], database=db, max_dist=c["md"]) as kw:
-                r = fingerprint_tcp(pkt, syn_mss=c["syn_mss"], **kw)
+            style = len(c["lines"]) + c["md"]
+            arg = parsed if (style // 3) % 2 else pkt        # both accepted argument types: the Scapy packet or the parsed Packet
+            with U.options_as(style, database=db, max_dist=c["md"]) as kw:
+                r = fingerprint_tcp(arg, syn_mss=c["syn_mss"], **kw)
             out["res"] = {"ok": [None if r.match is None else r.match.record.line_number, None if r.match is None else r.match.type.name, r.distance]}
         except PacketError:
             out["res"] = {"err": "PacketError"}
